@@ -14,8 +14,10 @@ mod c12;
 mod c15;
 mod c16;
 mod c18;
+mod edits;
 mod misc;
 mod parsers;
+mod pipeline;
 mod uri;
 
 #[global_allocator]
